@@ -658,6 +658,12 @@ pub mod verif {
         let mut tokenizer = Tokenizer::new(input);
         let mut out = Vec::new();
         while let Some(t) = tokenizer.next() {
+            // `Tokenizer::next` never returns `None`: it yields `EOF` forever once the input is
+            // exhausted, so stop after the first one.
+            let eof = match t {
+                Ok(ref t) => t.value == Token::EOF,
+                Err(_) => false,
+            };
             out.push(match t {
                 Ok(t) => Ok((
                     t.span.start().absolute.to_usize() as u32,
@@ -670,6 +676,9 @@ pub mod verif {
                     format!("{:?}", e.value),
                 )),
             });
+            if eof {
+                break;
+            }
         }
         let errors = tokenizer
             .errors
